@@ -39,7 +39,7 @@ First generation, liquidated borrow (x/auction dutch_lend.go):
 Monitors (on REAL values): pay_le_target receive_le_collateral books_exact (+ `_after_d7` variants, see `finish`) posted_price
 price_monotone price_in_range price_below_end_at_T
 price_in_range_slack close_distributes leftover_to_owner bid_refused reserve_draw_skipped limit_fill_overcharge start_price start_record
-esm_payout_le_proceeds (+ `_after_esm_trigger` variants of the two close monitors once `TriggerEsm` has paid anything out).
+close_branch_split esm_payout_le_proceeds (+ `_after_esm_trigger` variants of the two close monitors once `TriggerEsm` has paid anything out).
 -/
 -- DRIVER: prefix=dutch ns=Comdex.Drv.Dutch
 namespace Comdex.Drv.Dutch
@@ -308,7 +308,23 @@ def finish (st : St) (seq : String) (outcomeModelOk : Bool) (outcome : String) (
         let proceeds := decide (realPaid - overReal + drawn + shortReal = out) && decide (out = st.e.target)
         let ownerOk := decide ((balOf o "owner").1 - (balOf b0 "owner").1 = st.e.coll0 - realRecv)
         -- recipient checked by ACCOUNT: "owner" is the account recorded in the locked vault at seizure
-        mon seq ("close_distributes" ++ sfxC) (custody && proceeds && ownerOk) ++ mon seq ("leftover_to_owner" ++ sfxC) ownerOk
+        -- per distribution branch of the close path (bid.go:122-158 / :161-190 / :191-202), on REAL balances since the seizure:
+        -- who got what of the target (theorems vault_/external_/lend_close_distributes)
+        let cut := match st.e.kind with
+          | .vault => cutOf st.e st.e.isKeeper
+          | _ => 0
+        let branchOk := match st.e.kind with
+          | .vault => decide (burned = st.e.target - st.e.fee) && decide (dlt "keeper" = cut) && decide (dlt "collector" = st.e.fee - cut) &&
+              decide (o.net - b0.net = st.e.fee - cut) && decide (dlt "initiator" = 0) && decide (dlt "pool" = 0) && decide (dlt "lendres" = 0) &&
+              decide (o.ext = st.ext0)
+          | .external => decide (dlt "initiator" = st.e.target - st.e.fee) && decide (o.ext - st.ext0 = st.e.fee) && decide (burned = 0) &&
+              decide (dlt "collector" = 0) && decide (dlt "keeper" = 0) && decide (dlt "pool" = 0) && decide (dlt "lendres" = 0)
+          | .lend => decide (dlt "lendres" = st.e.lendPen + (if st.e.lendInt > 0 then st.e.lendInt else 0)) &&
+              decide (dlt "pool" = st.e.target - st.e.lendPen - (if st.e.lendInt > 0 then st.e.lendInt else 0)) && decide (burned = 0) &&
+              decide (dlt "collector" = 0) && decide (dlt "keeper" = 0) && decide (dlt "initiator" = 0) && decide (o.ext = st.ext0)
+        -- (a vault auction that went through `TriggerEsm` has forwarded part of its proceeds already: the close monitors carry the suffix)
+        mon seq ("close_distributes" ++ sfxC) (custody && proceeds && ownerOk) ++ mon seq ("leftover_to_owner" ++ sfxC) ownerOk ++
+          (if sfxC = "" then mon seq "close_branch_split" branchOk else [])
     else []
   let st' := { st with prev := some o, realPaid := realPaid, realRecv := realRecv, baseD := baseD, drawnReal := drawn, shortReal := shortReal, overReal := overReal,
                        esmOutReal := esmOutReal, closedSeen := st.closedSeen || closing }
